@@ -70,6 +70,33 @@ func genC08(t *rapid.T) *FileCase {
 			}
 			ms.Entries = append(ms.Entries, en)
 		}
+		// a ':' entry or row may name the generated label of an inline script of the same statement
+		// (the same script for two map script types), before or after the entry that owns it
+		{
+			var owned []string
+			for _, e := range ms.Entries {
+				if e.Kind == "inline" {
+					owned = append(owned, name+"_"+e.Type)
+				}
+				for i, r := range e.Rows {
+					if r.Body != nil {
+						owned = append(owned, fmt.Sprintf("%s_%s_%d", name, e.Type, i))
+					}
+				}
+			}
+			if len(owned) > 0 {
+				for _, e := range ms.Entries {
+					if e.Kind == "plain" && rapid.IntRange(0, 3).Draw(t, "reuse") == 0 {
+						e.Label = owned[rapid.IntRange(0, len(owned)-1).Draw(t, "reusewhich")]
+					}
+					for _, r := range e.Rows {
+						if r.Body == nil && rapid.IntRange(0, 3).Draw(t, "reuse") == 0 {
+							r.Label = owned[rapid.IntRange(0, len(owned)-1).Draw(t, "reusewhich")]
+						}
+					}
+				}
+			}
+		}
 		f.Tops = append(f.Tops, &Top{K: "mapscripts", Map: ms})
 		if rapid.IntRange(0, 2).Draw(t, "extrascript") == 0 {
 			sn := fmt.Sprintf("Scr%c", 'A'+mi)
@@ -161,7 +188,7 @@ func checkC08(c *FileCase) *Violation {
 	tables, controlFlow := false, false
 	for _, opt := range []bool{false, true} {
 		o := c.opts(opt)
-		res := Compile(src, o)
+		res := CompileMaybeLM(src, o)
 		if res.Panic != nil || res.Budget {
 			return viol("crash", "%s\n--- source\n%s", res.Describe(), src)
 		}
